@@ -462,6 +462,73 @@ func buildPool(r *hx.Rng) {
 	}
 }
 
+// edge keys, built on purpose (seeded): EC keys whose X / Y coordinate has a leading zero byte, Ed25519 keys whose
+// public key starts with 0x00 / 0x30 ('0', the DER SEQUENCE tag) / 0x7b ('{') / 0x04 / 0x02.
+type edgeKey struct {
+	label string
+	priv  interface{}
+}
+
+var edgeCache = map[string][]edgeKey{}
+
+func edgeKeys(kt *ktInfo, r *hx.Rng) []edgeKey {
+	key := kt.imp + "/" + kt.curve
+	if ks, ok := edgeCache[key]; ok {
+		return ks
+	}
+
+	var out []edgeKey
+
+	switch kt.imp {
+	case "ed":
+		want := map[byte]string{0x00: "first-byte-00", 0x30: "first-byte-30", 0x7b: "first-byte-7b", 0x04: "first-byte-04", 0x02: "first-byte-02"}
+		seed := r.Bytes(32)
+
+		for i := 0; len(want) > 0 && i < 20000; i++ {
+			h := sha256.Sum256(append(append([]byte{}, seed...), byte(i), byte(i>>8)))
+			priv := ed25519.NewKeyFromSeed(h[:])
+			pub := priv.Public().(ed25519.PublicKey)
+
+			if l, ok := want[pub[0]]; ok {
+				out = append(out, edgeKey{l, priv})
+				delete(want, pub[0])
+			}
+		}
+	case "ec":
+		c := goCurve(kt.curve)
+		n := coordLen(kt.curve)
+		d := new(big.Int).SetBytes(r.Bytes(n - 1))
+		d.Add(d, big.NewInt(2))
+		x, y := c.ScalarBaseMult(d.Bytes())
+		gx, gy := c.Params().Gx, c.Params().Gy
+		need := map[string]bool{"x-leading-zero": true, "y-leading-zero": true}
+
+		for i := 0; len(need) > 0 && i < 20000; i++ {
+			for _, l := range []string{"x-leading-zero", "y-leading-zero"} {
+				v := x
+				if l[0] == 'y' {
+					v = y
+				}
+
+				if need[l] && len(v.Bytes()) < n {
+					priv := &ecdsa.PrivateKey{D: new(big.Int).Set(d)}
+					priv.Curve, priv.X, priv.Y = c, new(big.Int).Set(x), new(big.Int).Set(y)
+					out = append(out, edgeKey{l, priv})
+					delete(need, l)
+				}
+			}
+
+			x, y = c.Add(x, y, gx, gy)
+			d.Add(d, big.NewInt(1))
+		}
+	}
+
+	sort.Slice(out, func(i, j int) bool { return out[i].label < out[j].label })
+	edgeCache[key] = out
+
+	return out
+}
+
 func (w *world) refID(ref int) string {
 	if ref >= 0 && ref < len(w.returned) {
 		return w.returned[ref]
@@ -1167,16 +1234,26 @@ func (w *world) sameKey(id string, atoms []int) error {
 
 // ---------- key id cases: thumbprint pre-image and did:key round trip ----------
 
+// encOf classifies the bytes found under the multicodec by their LENGTH first (a raw 32-byte key may begin with any
+// byte, 0x30 or '{' included): 32/96 raw key; 33/49/67 compressed point; 65/97/133 uncompressed point; 91/120/158
+// PKIX DER of a P-256/384/521 key.
 func encOf(b []byte) string {
-	switch {
-	case len(b) > 0 && b[0] == 0x30:
-		return "EPkixDer"
-	case (len(b) == 65 || len(b) == 97 || len(b) == 133) && b[0] == 4:
-		return "EUncompressed"
-	case (len(b) == 33 || len(b) == 49 || len(b) == 67) && (b[0] == 2 || b[0] == 3):
-		return "ECompressed"
-	case len(b) == 32 || len(b) == 96:
+	switch len(b) {
+	case 32, 96:
 		return "ERaw"
+	case 33, 49, 67:
+		if b[0] == 2 || b[0] == 3 {
+			return "ECompressed"
+		}
+	case 65, 97, 133:
+		if b[0] == 4 {
+			return "EUncompressed"
+		}
+	}
+
+	switch {
+	case len(b) > 2 && b[0] == 0x30:
+		return "EPkixDer"
 	case len(b) > 0 && b[0] == '{':
 		return "ECompositeJSON"
 	}
@@ -1231,9 +1308,17 @@ func vdrKID(did string, kt *ktInfo) (kid string, err error) {
 	return refKID(kt.curve, vm.Value, nil), nil
 }
 
-func kidCase(kt *ktInfo, seed *hx.Rng, viaImport bool, tr *hx.Trace) {
+// kidCase: key id and did:key form of one key: a key the KMS generates (priv == nil), or a key built on purpose for an
+// encoding edge (leading zero byte in a coordinate, first byte of a raw key that looks like another encoding) and
+// imported without a requested id.
+func kidCase(kt *ktInfo, seed *hx.Rng, priv interface{}, edge string, tr *hx.Trace) {
 	w := newWorld(seed)
 	rec := &hx.Record{Kind: "kid", Oracle: "ok", Class: "kid/" + kt.name, Dist: []string{"kt=" + kt.name}}
+
+	if priv != nil {
+		rec.Kind, rec.Class = "kid-edge", "kid-edge/"+kt.name+"/"+edge
+		rec.Dist = append(rec.Dist, "edge="+edge)
+	}
 
 	fail := func(sig, detail string) {
 		if rec.Oracle == "ok" {
@@ -1241,9 +1326,23 @@ func kidCase(kt *ktInfo, seed *hx.Rng, viaImport bool, tr *hx.Trace) {
 		}
 	}
 
-	id, pub, err := w.kms.CreateAndExportPubKeyBytes(kmsapi.KeyType(kt.name))
+	var (
+		id  string
+		pub []byte
+		err error
+	)
+
+	if priv == nil {
+		id, pub, err = w.kms.CreateAndExportPubKeyBytes(kmsapi.KeyType(kt.name))
+	} else {
+		id, _, err = w.kms.ImportPrivateKey(priv, kmsapi.KeyType(kt.name))
+		if err == nil {
+			pub, _, err = w.kms.ExportPubKeyBytes(id)
+		}
+	}
+
 	if err != nil {
-		rec.Case = map[string]string{"kt": kt.name}
+		rec.Case = map[string]string{"kt": kt.name, "edge": edge}
 		fail("kid:create-fails:"+kt.name, err.Error())
 		tr.Put(rec)
 
@@ -1256,7 +1355,7 @@ func kidCase(kt *ktInfo, seed *hx.Rng, viaImport bool, tr *hx.Trace) {
 	}
 
 	pre := refPreimage(kt.curve, x, y)
-	rec.Case = map[string]string{"kt": kt.name, "pub": base64.StdEncoding.EncodeToString(pub), "id": id}
+	rec.Case = map[string]string{"kt": kt.name, "pub": base64.StdEncoding.EncodeToString(pub), "id": id, "edge": edge}
 	obsd := map[string]interface{}{"id": id, "preimage": pre}
 
 	if refKID(kt.curve, x, y) != id {
@@ -1284,8 +1383,12 @@ func kidCase(kt *ktInfo, seed *hx.Rng, viaImport bool, tr *hx.Trace) {
 		return // no did:key form for this key type (secp256k1)
 	}
 
-	rec2 := &hx.Record{Kind: "didkey", Oracle: "ok", Class: "didkey/" + kt.name, Dist: []string{"kt=" + kt.name},
-		Case: map[string]string{"kt": kt.name, "pub": base64.StdEncoding.EncodeToString(pub), "id": id, "didkey": did}}
+	rec2 := &hx.Record{Kind: "didkey", Oracle: "ok", Class: "didkey/" + kt.name + "/" + edge, Dist: []string{"kt=" + kt.name},
+		Case: map[string]string{"kt": kt.name, "pub": base64.StdEncoding.EncodeToString(pub), "id": id, "didkey": did, "edge": edge}}
+
+	if priv != nil {
+		rec2.Kind = "didkey-edge"
+	}
 
 	raw := base58.Decode(strings.TrimPrefix(did, "did:key:z"))
 	codec, n := binary.Uvarint(raw)
@@ -1556,7 +1659,7 @@ func main() {
 		if json.Unmarshal(c.Case, &kc) == nil && kc["kt"] != "" {
 			if kt := ktByName(kc["kt"]); kt != nil {
 				for i := 0; i < 5; i++ {
-					kidCase(kt, rng.Fork(uint64(i)), false, tr)
+					kidCase(kt, rng.Fork(uint64(i)), nil, "", tr)
 				}
 			}
 		}
@@ -1578,7 +1681,18 @@ func main() {
 	for i := range ktypes {
 		if ktypes[i].asym {
 			for j := 0; j < nKid; j++ {
-				kidCase(&ktypes[i], next(), false, tr)
+				kidCase(&ktypes[i], next(), nil, "", tr)
+			}
+		}
+	}
+
+	// edge keys imported on purpose, every importable asymmetric key type: id = thumbprint, did:key round trip
+	edgeRng := rng.Fork(4242)
+
+	for i := range ktypes {
+		if ktypes[i].asym && (ktypes[i].imp == "ec" || ktypes[i].imp == "ed") {
+			for _, ek := range edgeKeys(&ktypes[i], edgeRng.Fork(uint64(i))) {
+				kidCase(&ktypes[i], next(), ek.priv, ek.label, tr)
 			}
 		}
 	}
